@@ -523,6 +523,10 @@ def discharge(obls: List[Obl], procs: int = 16, z3_ms: int = None, cvc5_s: int =
 
 def model_of(o: Obl, timeout_ms=60000):
     """Re-solve a failed VC in-process to obtain a z3 model (or None)."""
+    if o.info.get('cvc5_first'):
+        # (C21) the contract marked the VC as out of z3's reach (cvc5 decided it): z3 would spend - and, under load, ignore - its
+        # whole budget here without producing the model; the failing input then comes from the obligation's native replayer
+        return None
     s = z3.Solver()
     s.set('timeout', timeout_ms)
     s.add(o.query)
